@@ -644,7 +644,8 @@ def scanl(
         else:
             yield working
             working = safe_apply(function, working, item, ctx=ctx)
-    yield working
+    if working is not None:
+        yield working
 
 
 def sentence_case(item: str) -> str:
